@@ -455,6 +455,27 @@ M('C12', 'grouped site restores wrong list', SITE, '            JW_Ids[i] = site
   '            JW_Ids[i] = site.Id', 'GROUPED-jw')
 M('C12', 'TermList shares the strength array (seed)', TERMS, 'self.strength = np.array(strength)',
   'self.strength = np.asarray(strength)', 'OWN-attr')
+M('C12', 'term_correlation_function_left reuses has_extra_JW (original defect)', MPS,
+  """        ops_L, i_min, odd_JW = self._term_to_ops_list(term_L, autoJW, i_L[0], has_extra_JW)
+        i_min = i_min - i_L[0]
+        if autoJW and odd_JW:""",
+  """        ops_L, i_min, has_extra_JW = self._term_to_ops_list(term_L, autoJW, i_L[0], has_extra_JW)
+        i_min = i_min - i_L[0]
+        if autoJW and has_extra_JW:""", 'RECOMPUTE-agree')
+M('C12', 'loop re-computation of ops_L drops the JW flag', MPS,
+  'ops_L, _, _ = self._term_to_ops_list(term_L, autoJW, i, has_extra_JW)',
+  'ops_L, _, _ = self._term_to_ops_list(term_L, autoJW, i)', 'RECOMPUTE-agree')
+M('C12', 'renaming the flag consistently is fine', MPS,
+  """        ops_R, j_min, has_extra_JW = self._term_to_ops_list(term_R, autoJW, j_R)
+        if autoJW:
+            opstr = 'JW' if has_extra_JW else None
+        ops_L, i_min, odd_JW = self._term_to_ops_list(term_L, autoJW, i_L[0], has_extra_JW)""",
+  """        ops_R, j_min, JW_R = self._term_to_ops_list(term_R, autoJW, j_R)
+        has_extra_JW = JW_R
+        if autoJW:
+            opstr = 'JW' if has_extra_JW else None
+        ops_L, i_min, odd_JW = self._term_to_ops_list(term_L, autoJW, i_L[0], has_extra_JW)""",
+  None, 'silent')
 
 # ---------------------------------------------------------------- C09
 M('C09', 'roll converts to B form (original defect)', MPS,
